@@ -239,7 +239,7 @@ class SymInfer:
                 if a.dim:
                     self.problem('exp of a dimensional quantity %s [%s]' % (show_expr(e[2])[:80], d_show(a.dim)))
                 return Ty(dict(a.log))
-            if name in ('sin', 'cos', 'tan', 'sinh', 'cosh', 'tanh', 'asin', 'acos', 'atan', 'gamma', 'beta', 'digamma', 'erf', 'binom_coeff'):
+            if name in ('sin', 'cos', 'tan', 'sinh', 'cosh', 'tanh', 'asin', 'acos', 'atan', 'gamma', 'ln_gamma', 'beta', 'digamma', 'erf', 'binom_coeff'):
                 if a.dim:
                     self.problem('%s of a dimensional quantity %s [%s]' % (name, show_expr(e[2])[:60], d_show(a.dim)))
                 for x in e[3:]:
